@@ -508,6 +508,34 @@ func V2Chain(class int) Action {
 	}}
 }
 
+// MixedChain: a v1 transaction creates an output and a v2 transaction of the SAME block spends it as an ephemeral
+// parent (only possible between the v2 allow and require heights; a block's v1 transactions precede its v2 ones).
+func MixedChain() Action {
+	return Action{"mixedchain(v1->v2)", func(bc *BlockCtx) bool {
+		if !bc.V1OK() || !bc.V2OK() {
+			return false
+		}
+		w := bc.W
+		p, ok := bc.PickSC(func(c int) bool { return c == AddrV1 || c == AddrV1b }, types.Siacoins(10))
+		if !ok {
+			return false
+		}
+		c := w.Keys.ClassOf(p.SiacoinOutput.Address)
+		t1 := types.Transaction{SiacoinInputs: []types.SiacoinInput{{ParentID: p.ID, UnlockConditions: w.Keys.StdUC(KeyOf(c))}},
+			SiacoinOutputs: []types.SiacoinOutput{{Value: p.SiacoinOutput.Value, Address: w.Keys.Addr(AddrV1)}}}
+		w.SignV1Whole(&t1)
+		eph := types.SiacoinElement{ID: t1.SiacoinOutputID(0), SiacoinOutput: t1.SiacoinOutputs[0], StateElement: types.StateElement{LeafIndex: types.UnassignedLeafIndex}}
+		t2 := types.V2Transaction{SiacoinInputs: []types.V2SiacoinInput{{Parent: eph}},
+			SiacoinOutputs: []types.SiacoinOutput{{Value: p.SiacoinOutput.Value.Sub(Fee), Address: w.Keys.Addr(AddrV2)}}, MinerFee: Fee}
+		w.SignV2(&t2)
+		bc.Used[types.Hash256(p.ID)] = true
+		bc.V1 = append(bc.V1, t1)
+		bc.V2 = append(bc.V2, t2)
+		bc.Names = append(bc.Names, "mixedchain")
+		return true
+	}}
+}
+
 // V2Chain2: like V2Chain, but the second transaction spends the ephemeral output TOGETHER with an ordinary input.
 func V2Chain2(class int) Action {
 	return Action{fmt.Sprintf("v2chain2(class=%d)", class), func(bc *BlockCtx) bool {
